@@ -213,6 +213,9 @@ func checkC16(p *Prog, c *Check) {
 				if !strings.Contains(f.name, "no properties") && !strings.Contains(f.name, "remaining length") {
 					continue
 				}
+				if strings.Contains(f.name, "reason code") {
+					continue // C03's enumeration of reason codes: not needed to decide the dispatch
+				}
 				q := int64(-1)
 				if k := strings.Index(f.name, "QoS "); k >= 0 {
 					fmt.Sscanf(f.name[k+4:], "%d", &q)
